@@ -22,7 +22,11 @@ META = {
             "to the handler; a cancellation that falls between the context check and the call does not stop that one call (the model "
             "has this window as MC_Window, and the code cannot close it). Trusted: Go channels are FIFO; the harness parks goroutines "
             "only at ctx.Done()/ctx.Err()/handler entry, so a deliver() call is one step in the forced replay (TLC explores it split). "
-            "No libp2p host: the pubsub topic is replaced by a fake publisher feeding processPubsubMessage.",
+            "No libp2p host: the pubsub topic is replaced by a fake publisher feeding processPubsubMessage. The forced replay "
+            "relies on the implementation reading ctx.Err() exactly once after each dequeue (calibrated at run time; if that "
+            "changes the check reports itself broken rather than guessing). Exhaustive bounds are smaller than planned in "
+            "DESIGN.md (2 senders x 1 message x 1 retransmission x 2 handlers; 2 x 2 messages only for one handler): the "
+            "planned 2x2x2x2 configuration has more than 10^8 states.",
     "technique": "TLA+ spec with two lifecycle variants + negative variants, TLC exhaustive; forced schedule replay through an instrumented "
                  "context; trace validation of concurrent runs; linearizability check of the filter",
     "design_ref": "DESIGN.md §4.4 C16",
